@@ -20,7 +20,10 @@ WHOLE = ["rest_roundtrip_full", "rest_roundtrip_names", "rest_roundtrip_docs", "
          "dup_names_needed", "return_type_name_needed", "optional_doc_needed", "optional_suffix_needed", "compat_needed", "announce_needed",
          "paren_announce_needed", "defaults_word_needed", "trailing_blank_needed", "header_blank_needed", "two_line_doc_needed", "token_in_doc_needed",
          "colon_in_name_needed", "kwargs_name_needed", "docless_needed", "type_shape_needed"]
-THEOREMS = ["C01Whole." + t for t in WHOLE] + ["C01Google." + t for t in GOOGLE] + [
+NUMPY = ["numpy_roundtrip_full", "numpy_roundtrip_names", "numpy_roundtrip_docs", "numpy_roundtrip_header", "numpy_roundtrip_types_defaults", "numpy_roundtrip_plain",
+         "latch_gives_default_numpy", "no_types_names_lost", "untyped_needed", "return_without_doc_raises", "returns_word_needed", "type_blank_needed"]
+GRET = ["return_survives_with_params", "return_latch_default", "return_doc_gets_type_prefix", "decimals_roundtrip_observed"]
+THEOREMS = ["C01Whole." + t for t in WHOLE] + ["C01Google." + t for t in GOOGLE] + ["C01Numpy." + t for t in NUMPY] + ["C01GoogleReturn." + t for t in GRET] + [
     "C01.extract_nat_roundtrip", "C01.extract_neg_roundtrip", "C01.extract_bool_roundtrip", "C01.setDefaultDoc_int",
     "C01.setDefaultDoc_extract_int", "C01.emit_no_default_when_stripped", "C01.quote_unquote", "C01.unquote_quote_idem",
     "C01.locate_emitted", "C01.hasParenAnnounce_false", "C01.extract_str_roundtrip", "C01.quote_good", "C01.parse_quoted_text", "C01.extract_float_roundtrip", "C01.parse_float_text", "C01.takeDefault_float",
@@ -300,9 +303,10 @@ def impl_google(case):
     import cdd.docstring.emit as E
     import cdd.docstring.parse as P
 
-    ir, edd = case
+    ir, edd = case[:2]
+    style = case[2] if len(case) > 2 else "google"
     try:
-        ds = E.docstring(copy.deepcopy(ir), docstring_format="google", emit_default_doc=edd)
+        ds = E.docstring(copy.deepcopy(ir), docstring_format=style, emit_default_doc=edd)
         return {"ds": ds, "view": docir.ir_view(P.docstring(ds, emit_default_doc=edd))}
     except Exception as e:  # noqa
         return {"raises": core.exc_name(e)}
@@ -338,6 +342,29 @@ def google_stream(chk, rng, have):
             chk.disagreement("C01 Google whole-docstring theorem: real parse(emit ir) = expIRG ir on InDomainG", {"ir": docir.ir_to_model(ir), "edd": edd},
                              {"view": r.get("view"), "raises": r.get("raises"), "ds": r.get("ds")}, {"exp": g["exp"]})
     chk.coverage["google_theorem_tie"] = {"generated": n, "in_domain_and_compared": n_in, "with_a_parameter_after_a_defaulted_one": n_latch}
+    # the same interfaces (every parameter typed) through the NumPy style: C01Numpy.numpy_roundtrip_full
+    ncases = []
+    for ir, edd in cases:
+        ir2 = copy.deepcopy(ir)
+        for p in ir2["params"].values():
+            p.setdefault("typ", "int" if isinstance(p.get("default"), int) and not isinstance(p.get("default"), bool) else ("bool" if isinstance(p.get("default"), bool) else "Foo"))
+        ncases.append((ir2, edd, "numpydoc"))
+    nreal = core.guarded_map(impl_google, ncases, 15.0)
+    nm = core.model_batch([{"op": "c01.numpy", "ir": docir.ir_to_model(ir), "edd": edd} for ir, edd, _ in ncases])
+    nn_in = nn_dis = 0
+    for (ir, edd, _), r, g in zip(ncases, nreal, nm):
+        if not isinstance(r, dict) or r.get("timeout") or r.get("skipped") or not g.get("indomain"):
+            continue
+        nn_in += 1
+        chk.count(("numpy", json.dumps(docir.ir_to_model(ir), sort_keys=True), edd), len(ir["params"]) >= 2)
+        if r.get("view") != g["exp"]:
+            nn_dis += 1
+            chk.disagreement("C01 NumPy whole-docstring theorem: real parse(emit ir) = expIRN ir on InDomainN", {"ir": docir.ir_to_model(ir), "edd": edd},
+                             {"view": r.get("view"), "raises": r.get("raises"), "ds": r.get("ds")}, {"exp": g["exp"]})
+    chk.coverage["numpy_theorem_tie"] = {"generated": len(ncases), "in_domain_and_compared": nn_in}
+    chk.oblige("correspondence: on C01Numpy.InDomainN (decided by the driver) the REAL NumPy-style parse(emit ir) (types emitted) equals the interface predicted by "
+               "numpy_roundtrip_full on %d in-domain interfaces (of %d generated)" % (nn_in, len(ncases)), "correspondence", nn_dis == 0 and nn_in > len(ncases) // 20,
+               "%d disagreements, %d in domain" % (nn_dis, nn_in))
     chk.oblige("correspondence: on C01Google.InDomainG (decided by the driver) the REAL Google-style parse(emit ir) equals the interface predicted by google_roundtrip_full "
                "(expIRG, incl. the defaults the require_default latch gives to later parameters) on %d in-domain interfaces (of %d generated)" % (n_in, n),
                "correspondence", n_dis == 0 and n_in > n // 20, "%d disagreements, %d in domain" % (n_dis, n_in))
